@@ -238,6 +238,17 @@ def run_shard(shard, tier, seed):
         for base, lst in list(words.items())[:12]:
             sel = [lst[0], lst[-1]] + lst[2:5]
             check_call(rep, cfg, seed % 4, proj, ctl, d, sel, "combo", "first", "several-bits-of-one-word")
+        # bits of DIFFERENT elements of one array (and of different words of one BOOL array) in one call
+        for tg in proj.user_tags():
+            if not isinstance(tg.typ, str) or len(tg.dims) != 1:
+                continue
+            n = tg.dims[0]
+            if tg.typ in ("SINT", "INT", "DINT", "LINT") and n >= 3:
+                sel = [(f"{tg.full_name}[0].3", True), (f"{tg.full_name}[1].3", True), (f"{tg.full_name}[2].0", False), (f"{tg.full_name}[1].7", True), (f"{tg.full_name}[{n - 1}].3", False)]
+                check_call(rep, cfg, seed % 4, proj, ctl, d, sel, "combo", "first", "bits-of-several-elements")
+            elif tg.typ == "DWORD" and n >= 2:
+                sel = [(f"{tg.full_name}[3]", True), (f"{tg.full_name}[35]", False), (f"{tg.full_name}[{32 * n - 1}]", True), (f"{tg.full_name}[4]", False), (f"{tg.full_name}[36]", True)]
+                check_call(rep, cfg, seed % 4, proj, ctl, d, sel, "combo", "first", "bits-of-several-elements")
         for a in alpha:
             check_call(rep, cfg, seed % 4, proj, ctl, d, [a, a], "combo", "first", "duplicate")
         red = alpha[:: max(1, len(alpha) // 14)]
